@@ -15,6 +15,18 @@ def noEff (p : Prog) : Bool := p.all fun d => match d with | .eff _ => false | _
 /-- no `unjust` event in the log -/
 def LogOK (s : State) : Prop := ∀ i, Ev.unjust i ∉ s.log
 
+/-- the cached value of memo `m` is its body evaluated at the tracked values it saw and some
+snapshot of the untracked reads -/
+def Replays (p : Prog) (s : State) (m : Nat) : Prop :=
+  ∃ U : List Int, ∀ ρ : Nat → Int, (∀ e ∈ (s.get m).seen, ρ e.1 = e.2.1) →
+    (s.get m).val = some (evalSnap ρ (bodyOf p m) U).1
+
+theorem Replays.congr {p : Prog} {s s' : State} {m : Nat} (h : Replays p s m)
+    (hseen : (s'.get m).seen = (s.get m).seen) (hval : (s'.get m).val = (s.get m).val) :
+    Replays p s' m := by
+  obtain ⟨U, hU⟩ := h
+  exact ⟨U, fun ρ hρ => by rw [hval]; exact hU ρ (by rw [← hseen]; exact hρ)⟩
+
 structure InvR (p : Prog) (s : State) : Prop where
   len : s.nodes.length = p.length
   kind : ∀ i d, p[i]? = some d → (s.get i).kind = kindOf d
@@ -32,8 +44,7 @@ structure InvR (p : Prog) (s : State) : Prop where
   valNone : ∀ m, (s.get m).kind = .memo → (s.get m).running = false → (s.get m).val = none →
     (s.get m).st = .dirty
   replay : ∀ m, (s.get m).kind = .memo → (s.get m).running = false → (s.get m).st ≠ .dirty →
-    ∀ ρ : Nat → Int, (∀ e ∈ (s.get m).seen, ρ e.1 = e.2.1) →
-      (s.get m).val = some (evalPure ρ (bodyOf p m))
+    Replays p s m
   srcVal : ∀ m, (s.get m).kind = .memo → (s.get m).running = false → (s.get m).st ≠ .dirty →
     ∀ e ∈ (s.get m).seen, (s.get e.1).running = true ∨ (s.get e.1).val = some e.2.1
   verDirty : ∀ m, (s.get m).kind = .memo → (s.get m).running = false → (s.get m).st = .dirty →
@@ -254,7 +265,8 @@ theorem scratch_env_congr {p : Prog} {env env' : Nat → Int}
       | eff b => simp only [funext ih]
 
 /-- a clean node holds its from-scratch value -/
-theorem InvR.clean_correct {p : Prog} {s : State} (h : InvR p s) (hwf : WF p = true) :
+theorem InvR.clean_correct {p : Prog} {s : State} (h : InvR p s) (hwf : WF p = true)
+    (htr : ∀ (m : Nat) (b : Expr), p[m]? = some (NodeDef.memo b) → b.noUntracked = true) :
     ∀ m, m < p.length → (s.get m).kind ≠ .eff → (s.get m).st = .clean →
       (s.get m).val = some (specVal p s m) := by
   intro m
@@ -304,10 +316,12 @@ theorem InvR.clean_correct {p : Prog} {s : State} (h : InvR p s) (hwf : WF p = t
         rcases h.srcVal m hk hrun hnd e he with h1 | h1
         · rw [hnr] at h1; cases h1
         · rw [hv] at h1; exact Option.some.inj h1
-      have hval := h.replay m hk hrun hnd (specVal p s) hcons
+      obtain ⟨U, hU⟩ := h.replay m hk hrun hnd
+      have hval := hU (specVal p s) hcons
       rw [hval]
       congr 1
       simp only [bodyOf, hd]
+      rw [evalSnap_tracked _ b U (htr m b hd)]
       show _ = scratch p (envOf s) (p.length + 1) m
       simp only [scratch, hd]
       apply evalPure_congr (k := m) _ b hw.1.1
@@ -337,5 +351,31 @@ theorem ValCh.trans {s s1 s2 : State} {k : Nat} (h1 : ValCh s s1) (h2 : ValCh s1
     · exact .inl (f2.flags.d i h')
     · exact .inr (.inl h')
     · exact .inr (.inr h')
+
+/-- `InvR` does not depend on the log, and on `obs` only through `obsRun` -/
+theorem InvR.reobs {p : Prog} {s s' : State} (h : InvR p s) (hn : s'.nodes = s.nodes)
+    (ho : ∀ o, s'.obs = some o → (s.get o).running = true) : InvR p s' := by
+  have g : ∀ i, s'.get i = s.get i := by intro i; simp only [State.get, hn]
+  constructor
+  · rw [hn]; exact h.len
+  · intro i d hd; rw [g]; exact h.kind i d hd
+  · intro i hi hk; rw [g] at hk ⊢; exact h.sigOk i hi hk
+  · intro o ho'; rw [g]; exact ho o ho'
+  · intro a w; rw [g, g]; exact h.edge a w
+  · intro a; rw [g]; exact h.nodup a
+  · intro w a ha; rw [g] at ha; exact h.srcLt w a ha
+  · intro r hk hr; rw [g] at hk hr ⊢; exact h.runNC r hk hr
+  · intro a w hka hsa hw hkw; rw [g] at hka hsa hw; rw [g] at hkw ⊢; exact h.closed a w hka hsa hw hkw
+  · intro i hk hr; rw [g] at hk hr ⊢; exact h.srcSeen i hk hr
+  · intro i hk hr hv; rw [g] at hk hr hv ⊢; exact h.valNone i hk hr hv
+  · intro i hk hr hst; rw [g] at hk hr hst; exact (h.replay i hk hr hst).congr (by rw [g]) (by rw [g])
+  · intro i hk hr hst x hx; rw [g] at hk hr hst hx; rw [g]; exact h.srcVal i hk hr hst x hx
+  · intro i hk hr hst hruns
+    rw [g] at hk hr hst hruns
+    obtain ⟨x, hx, hne⟩ := h.verDirty i hk hr hst hruns
+    exact ⟨x, by rw [g]; exact hx, by rw [g]; exact hne⟩
+  · intro w x hx; rw [g] at hx; rw [g]; exact h.verLe w x hx
+  · intro w a ha; rw [g] at ha; rw [g]; exact h.srcData w a ha
+
 
 end Leptos.Reactive
